@@ -132,6 +132,29 @@ def check(repo, res, tier):
                     'arithmetic on the DelayDegree enum member itself (not .value) raises TypeError')
         else:
             res.ok('C15.Y1', f, n, '%s branch uses the degree only through .value' % meth)
+        # (d) the distribution is centred on the runtime and its spread vanishes with it: a
+        # runtime of 0 then draws nothing above the mean and the runtime itself is returned
+        from ..norm import affine as _aff, Affine as _A
+        pA = lambda x: _aff(pcanon, x, fr)
+        RT = _A({rt: 1})
+        if meth == 'normal' and len(draw.args) >= 2:
+            loc, scale = pA(draw.args[0]), pA(draw.args[1])
+            sc_ok = len(scale.terms) == 1 and scale.const == 0 and list(scale.terms.values()) == [1] and \
+                next(iter(scale.terms)) in ('(DelayModel.degree.value)*(%s)' % rt, '(%s)*(DelayModel.degree.value)' % rt)
+            if loc == RT and sc_ok:
+                res.ok('C15.Y1', f, n, 'normal(mean = runtime, spread = degree.value * runtime)')
+            else:
+                res.bad('C15.Y1', f, n, 'normal(%s, %s)' % (short(repr(loc), 30), short(repr(scale), 50)),
+                        'the normal branch draws around %r with spread %r, not around the runtime with spread '
+                        'degree.value * runtime: for a runtime of 0 the draw is no longer degenerate and a delay is '
+                        'added to a zero-length task (or the mean is not the runtime)' % (loc, scale))
+        elif meth == 'poisson' and draw.args:
+            lam = pA(draw.args[0])
+            if lam == RT:
+                res.ok('C15.Y1', f, n, 'poisson(lam = runtime)')
+            else:
+                res.bad('C15.Y1', f, n, 'poisson(%s)' % short(repr(lam), 40),
+                        'the poisson branch is centred on %r, not on the runtime' % lam)
     # also sigma etc.
     for n in walk_no_nested(f.node):
         if isinstance(n, ast.BinOp) and not any(
